@@ -263,6 +263,18 @@ def _included(R, ctx, exact):
     return inc
 
 
+def _answer_goal(cond, inc, got, limit_value):
+    """the answer is, in scan order, the first `limit` rows that belong to it"""
+    gs = []
+    for k in range(len(inc)):
+        before = 0
+        for j in range(k):
+            before = T.add(before, T.ite(inc[j], 1, 0))
+        gs.append(T.iff(T.and_(inc[k], T.lt(before, limit_value)), bool(k in got)))
+    gs.append(bool(got == sorted(got) and len(got) <= limit_value and len(set(got)) == len(got)))
+    return T.implies(cond, T.and_(*gs))
+
+
 def _row_of(term, R):
     for k in range(R["nrows"]):
         if term == R["bn"][k].t:
@@ -331,7 +343,7 @@ def m4_get_transactions(S):
     for search_type in ("Lock", "Type"):
         for grouped in (False, True):
             for limit_value, exact in ((2, True), (1, True), (2, False)):
-                R = run_get_transactions(S, ob, search_type, grouped, exact=exact, limit_value=limit_value)
+                R = run_get_transactions(S, ob, search_type, grouped, exact=exact, limit_value=limit_value, nrows=(3 if (S.tier == "thorough" and not grouped) else 2))
                 ctx, ps = R["ctx"], R["ps"]
                 tag = R["tag"] + f"_limit{limit_value}"
                 if exact:
@@ -380,13 +392,7 @@ def m4_get_transactions(S):
                         io = cell.fields[JTX["io_type"]]
                         goals.append(T.implies(p_.cond(), T.iff(T.eq(R["iot"][k].t, 0), bool(isinstance(io, EnumV) and io.disc == R["ctype"].index("Input")))))
                     # the answer is, in scan order, the first `limit` rows that belong to it
-                    exp_first = [inc[k] for k in range(R["nrows"])]
-                    if limit_value >= R["nrows"]:
-                        goals.append(T.implies(p_.cond(), T.and_(*[T.iff(exp_first[k], bool(k in got)) for k in range(R["nrows"])])))
-                    else:
-                        first = T.ite(inc[0], 0, T.ite(inc[1], 1, -1))
-                        goals.append(T.implies(p_.cond(), T.eq(first, got[0] if got else -1)))
-                    goals.append(T.implies(p_.cond(), bool(got == sorted(got) and len(got) <= limit_value)))
+                    goals.append(_answer_goal(p_.cond(), inc, got, limit_value))
                 S.prove(ctx, ob, f"{tag}_every_answer_item_carries_the_coordinates_and_hash_of_one_row", [], bool(shape))
                 S.prove(ctx, ob, f"{tag}_the_answer_is_exactly_the_rows_under_the_prefix_that_pass_the_filters_in_scan_order", pre, T.and_(*goals) if goals else False)
                 S.witness(ctx, ob, f"{tag}_reach_two_rows_answered" if limit_value >= 2 else f"{tag}_reach_second_row_answered", pre, T.and_(inc[1], inc[0]) if limit_value >= 2 else T.and_(inc[1], T.not_(inc[0])))
@@ -681,7 +687,7 @@ def m5_get_cells(S):
     scen = [(w, True, 2, False, False) for w in FILTERS] + [("none", False, 2, True, False), ("script_prefix", True, 1, True, False), ("block_range", True, 1, False, False), ("none", True, 2, False, True), ("block_range", True, 2, False, True), ("all", True, 1, True, True)]
     for search_type in ("Lock", "Type"):
         for which, exact, limit_value, with_data, pool in scen:
-            R = run_get_cells(S, search_type, which, exact, limit_value, with_data, pool=pool, nrows=(1 if which == "all" else 2))
+            R = run_get_cells(S, search_type, which, exact, limit_value, with_data, pool=pool, nrows=(1 if which == "all" else (3 if S.tier == "thorough" else 2)))
             ctx, ps = R["ctx"], R["ps"]
             tag = f"{search_type}_{which}_{'exact' if exact else 'prefix'}_limit{limit_value}" + ("_pool" if pool else "")
             if pool:
@@ -729,11 +735,7 @@ def m5_get_cells(S):
                         shape = False
                         continue
                     got.append(k)
-                if limit_value >= R["nrows"]:
-                    goals.append(T.implies(p_.cond(), T.and_(*[T.iff(inc[k], bool(k in got)) for k in range(R["nrows"])])))
-                else:
-                    goals.append(T.implies(p_.cond(), T.eq(T.ite(inc[0], 0, T.ite(inc[1], 1, -1)), got[0] if got else -1)))
-                goals.append(T.implies(p_.cond(), bool(got == sorted(got) and len(got) <= limit_value)))
+                goals.append(_answer_goal(p_.cond(), inc, got, limit_value))
             S.prove(ctx, ob, f"{tag}_every_answer_item_is_the_cell_of_one_row_with_its_out_point_coordinates_and_data_iff_asked", [], bool(shape))
             S.prove(ctx, ob, f"{tag}_the_answer_is_exactly_the_rows_under_the_prefix_that_pass_the_filter_in_scan_order", pre, T.and_(*goals) if goals else False)
             if R["nrows"] == 1:
@@ -750,11 +752,14 @@ def m6_get_cells_capacity(S):
     kp = _enum_values("util/indexer/src/indexer.rs", "KeyPrefix")
     for search_type in ("Lock", "Type"):
         for which, exact, pool in [(w, True, False) for w in FILTERS] + [("none", False, False), ("none", True, True), ("all", True, True)]:
-            R = run_get_cells(S, search_type, which, exact, 2, False, fname="get_cells_capacity", pool=pool, nrows=(1 if which == "all" else 2))
+            R = run_get_cells(S, search_type, which, exact, 2, False, fname="get_cells_capacity", pool=pool, nrows=(1 if which == "all" else (3 if S.tier == "thorough" else 2)))
             ctx, ps = R["ctx"], R["ps"]
             tag = f"{search_type}_{which}_{'exact' if exact else 'prefix'}" + ("_pool" if pool else "")
             lens = [_sym(ctx, r"len\.row%d_key[\w.]*" % k) for k in range(R["nrows"])]
-            capsum = [T.le(T.add(R["cap"][0].t, R["cap"][-1].t), (1 << 64) - 1)]          # the total capacity of live cells fits u64 (issuance bound)
+            tot_ = 0
+            for c_ in R["cap"]:
+                tot_ = T.add(tot_, c_.t)
+            capsum = [T.le(tot_, (1 << 64) - 1)]          # the total capacity of live cells fits u64 (issuance bound)
             if exact:
                 pre = capsum + [T.le(_sym(ctx, r"uf\.len_prefix_\w*"), 1 << 20), T.ge(_sym(ctx, r"uf\.len_prefix_\w*"), 0)]
             else:
